@@ -106,6 +106,23 @@ def probes(fd):
     add("tablesfile", ["--tables-file=p.tables"], 'tables-file="p.tables"', lambda b: (b.frc == 0 and os.path.exists(os.path.join(b.wd, "p.tables")), b.ferr[:100]), run=False, link=False)
     add("lexcompat", ["-l"], "lex-compat", lambda b: (okrun(b) and "arr=1" in b.rout, b.rout + b.cout[-200:]), sect3='int main(void) { while (yylex()) ; printf("arr=%d\\n", sizeof(yytext) > sizeof(char *)); return 0; }')
     add("posixcompat", ["-X"], "posix-compat", lambda b: (okrun(b) and "hits=1" in b.rout, b.rout), rules=["ab{2}   { hits++; }", "\\n ;", ". ;"], inp=b"abab\n")
+    # character-set size and table representation: the options and the documented defaults
+    hi = ["[\\x80-\\xff]+   { hits++; }", "\\n   ;", ".    ;"]
+    hiin = b"\x80\xff\n"
+    acc = lambda b: (okrun(b) and "hits=1" in b.rout, (b.ferr + b.rout)[:160])
+    ref = lambda b: (b.frc != 0 and "-8" in b.ferr, (b.ferr or "accepted")[:160])
+    add("8bit", ["-8", "-f"], "8bit full", acc, rules=hi, inp=hiin)
+    add("7bit", ["-7"], "7bit", ref, rules=hi, inp=hiin, run=False, link=False)
+    add("default_8bit", [], "", acc, rules=hi, inp=hiin)
+    add("default_full_7bit", ["-f"], "full", ref, rules=hi, inp=hiin, run=False, link=False)
+    add("default_fast_7bit", ["-F"], "fast", ref, rules=hi, inp=hiin, run=False, link=False)
+    add("default_fullecs_8bit", ["-Cfer"], "full ecs", acc, rules=hi, inp=hiin)
+    add("default_fastecs_8bit", ["-CFer"], "fast ecs", acc, rules=hi, inp=hiin)
+    add("full", ["-f"], "full", lambda b: (okrun(b) and re.search(r"yy_nxt\[\]\[\d+\]", b.ctext) is not None, ""))
+    add("fast", ["-F"], "fast", lambda b: (okrun(b) and "yy_transition[" in b.ctext, ""))
+    add("ecs", ["-Ce"], "ecs nometa-ecs", lambda b: (okrun(b) and re.search(r"yy_ec\[\d+\]", b.ctext) is not None and not re.search(r"yy_meta\[\d+\]", b.ctext), ""))
+    add("metaecs", ["-Cem"], "ecs meta-ecs", lambda b: (okrun(b) and re.search(r"yy_meta\[\d+\]", b.ctext) is not None, ""))
+    add("noecs", ["-C"], "noecs nometa-ecs", lambda b: (okrun(b) and not re.search(r"yy_ec\[\d+\]", b.ctext), ""))
     return P
 
 
